@@ -11,7 +11,7 @@ wrote, or what the initiator kept of the one it read -/
 def lastList : List Ev → List Feature
   | [] => []
   | .listOut _ fs _ :: _ => fs
-  | .listIn _ fs _ :: _ => fs
+  | .listIn _ fs _ _ :: _ => fs
   | _ :: rest => lastList rest
 
 /-- every `Negotiate` call is for a feature of the current list, except the forced one -/
@@ -110,7 +110,7 @@ structure InvP (C : List Feature) (script0 : List Peer) (c : Conf) : Prop where
   advSrc : c.curAdv = [] ∨ Peer.adv c.curAdv ∈ script0
   parsing : inParsing c.pc = true → ∀ e ∈ c.cache,
     e.f ∈ C ∧ eligible c.st e.f = true ∧ ∃ req, AdvItem.feat e.f.name req ∈ c.curAdv
-  inOK : ∀ st fs adv, Ev.listIn st fs adv ∈ c.tr → (adv = [] ∨ Peer.adv adv ∈ script0) ∧
+  inOK : ∀ st fs adv es, Ev.listIn st fs adv es ∈ c.tr → (adv = [] ∨ Peer.adv adv ∈ script0) ∧
     ∀ f ∈ fs, f ∈ C ∧ eligible st f = true ∧ ∃ req, AdvItem.feat f.name req ∈ adv
 
 theorem find_name {C : List Feature} {name : FName} {f : Feature}
@@ -136,7 +136,7 @@ theorem invP_step (C : List Feature) (O : Oracle) (script0 : List Peer) (c : Con
     | (intro items hi; cases hi; intro i hi
        exact hr _ ‹c.pc = _› i (List.mem_cons_of_mem _ hi))
     | (right; exact hsub _ (by simp_all))
-    | (intro st fs adv hm
+    | (intro st fs adv es hm
        simp only [List.mem_cons] at hm
        rcases hm with hm | hm
        · first
@@ -146,7 +146,7 @@ theorem invP_step (C : List Feature) (O : Oracle) (script0 : List Peer) (c : Con
             intro f hf
             obtain ⟨e, he, rfl⟩ := List.mem_map.mp hf
             exact h7 (by simp_all [inParsing]) e he)
-       · exact h8 _ _ _ hm)
+       · exact h8 _ _ _ _ hm)
     | (intro _ e he
        have hh := put_mem he
        have hn := find_name ‹List.find? _ C = some _›
